@@ -258,7 +258,7 @@ fn generations(ctx: &mut Ctx) {
     let shape = h % 5;
     let npool = match shape {
         3 => rng.range(2, 30),
-        4 => rng.range(120, 300),
+        4 => rng.range(240, 330),
         _ => rng.range(1, 40),
     };
     let mut pool: Vec<Vec<u8>> = Vec::new();
@@ -303,12 +303,17 @@ fn generations(ctx: &mut Ctx) {
                 }
             }
         }
-        let n = if shape >= 3 { pool.len() * 2 + rng.below(40) } else { rng.range(0, 80) };
+        // shapes 3 and 4: tags are contended (shape 4 has more distinct strings than free tags).
+        // Every pool string is absorbed three times by ONE source; the heavy string is absorbed
+        // by EVERY source - either often (variant A) or only twice per source (variant B, where its
+        // per-source count is below everybody else's and only the sum over the sources ranks it first)
+        let variant_b = shape == 4 && nsrc >= 4 && h % 2 == 0;
+        let per_source_heavy = if variant_b { 2 } else { 10 };
+        let mine: Vec<&Vec<u8>> = if shape >= 3 { pool.iter().enumerate().filter(|(k, _)| k % nsrc == i && *k != heavy).map(|(_, s)| s).collect() } else { Vec::new() };
+        let n = if shape >= 3 { mine.len() * 3 + per_source_heavy } else { rng.range(0, 80) };
         for k in 0..n {
-            let s = if shape >= 3 && k < pool.len() * 2 {
-                // every pool string twice (in the exact regime all of them outrank nothing: equal
-                // counts), plus the heavy one below
-                pool[k % pool.len()].clone()
+            let s = if shape >= 3 {
+                if k < mine.len() * 3 { mine[k % mine.len()].clone() } else { pool[heavy].clone() }
             } else if rng.chance(3, 5) { pool[heavy].clone() } else if rng.chance(1, 8) { gen_string(&mut rng, &pool) } else { pool[rng.below(pool.len())].clone() };
             if s.is_empty() {
                 ctx.cover("empty:default");
